@@ -90,3 +90,26 @@ Definition check (c : Case) : bool :=
       list_eqb bytes_eqb (feature_intersection (v_feats v) (v_feats p)) inter
   | ValidateVersion v ok => bool_eqb (validate_version v) ok
   end.
+
+(** for measuring generator coverage only: per operation, 0 if the model's handler succeeded, else the
+    number of the guard that fired (Model.v numbering) *)
+Definition op_guard (w : World) (op : WOp) : N :=
+  let code r := match r with Ok _ => 0 | Err g => g end in
+  match op with
+  | WDeliver c m => code (handle (env_of (me_of w c) (cp_of w c)) (w_st (me_of w c)) m)
+  | WSend c p ch => code (w_send (env_of (me_of w c) (cp_of w c)) (w_st (me_of w c)) p ch)
+  | WTimeout c p ch => code (w_timeout (env_of (me_of w c) (cp_of w c)) (w_st (me_of w c)) p ch)
+  | _ => 0
+  end.
+Fixpoint guards_run (w : World) (ops : list WOp) : list N :=
+  match ops with
+  | [] => []
+  | op :: ops' => op_guard w op :: guards_run (fst (wstep w op)) ops'
+  end.
+Definition guards_hit (c : Case) : list N :=
+  match c with
+  | History ia ib ops _ _ _ _ =>
+      guards_run (init_world (chain_of_init ia) (i_h ia) (i_rev ia) (i_clients ia)
+                             (chain_of_init ib) (i_h ib) (i_rev ib) (i_clients ib)) ops
+  | _ => []
+  end.
